@@ -618,8 +618,8 @@ fix of F34 (it stays registered); that the thread then takes its turn is judged 
 theorem polling_resumes_partial (lastMain interval : Nat → Nat) (polled : List Nat) (now m : Nat)
     (hm : m ∈ polled) (hnow : interval m < now) : pollDue (triggerAll lastMain polled) interval now m = true := by
   unfold pollDue triggerAll
-  have : polled.contains m = true := by simpa using hm
-  simp [this, hnow]
+  simp only [List.contains_eq_mem, hm, decide_true, if_true, Nat.zero_add]
+  simpa using hnow
 
 /-- stale data discarded, step level: a `send` is accepted only from the drain state, when everything that had
 arrived on the connection has been read away and the device has not closed; the receive buffer is emptied -/
